@@ -9,6 +9,7 @@ import (
 
 	"verif/engine/build"
 	"verif/engine/props/c01"
+	"verif/engine/props/c02"
 	"verif/engine/props/c03"
 	"verif/engine/props/c04"
 	"verif/engine/props/c05"
@@ -38,6 +39,7 @@ var checks = map[string]struct {
 	fn    checkFn
 }{
 	"C01": {"translation_validation", c01.Run},
+	"C02": {"model_checking", c02.Run},
 	"C03": {"model_checking", c03.Run},
 	"C04": {"model_checking", c04.Run},
 	"C05": {"model_checking", c05.Run},
